@@ -14,6 +14,8 @@ from harness.framework import Suite
 
 PID = "C02"
 TRANSLATE = True
+TRANSLATE_ALGO = ["AlgoParse"]   # Gen/AlgoParse.lean is regenerated on every run from io.py::parse_swc (the read loop and its context) and file.py::FileReader.__exit__
+DRIVER_FILES = ["SwcVerif/Model/AlgoRunParse.lean"]
 LEAN_MODS = ["SwcVerif.Props.C02"]
 THEOREMS = [
     "C02.exit_flag_pinned", "C02.consts_pinned", "C02.read_ok_iff", "C02.read_row_count", "C02.read_never_partial", "C02.swallow_truncates",
@@ -756,7 +758,181 @@ class Recogniser(Suite):
         return case["class"] + "/" + k
 
 
-SUITES = [Read(), Recogniser()]
+# --- the GENERATED read loop (Gen/AlgoParse.lean: parse_swc + FileReader.__exit__ translated from the current source) ---------------------
+
+def real_re_swc(nx):
+    """the compiled `re_swc` the real `parse_swc` uses for `nx` extra columns (a local of the function: captured from its `re.compile` call)"""
+    import re as _re
+
+    from swcgeom.core.swc_utils import io as io_mod
+    from swcgeom.core.swc_utils.base import get_names
+
+    class Proxy:
+        def __init__(self):
+            self.compiled = []
+
+        def compile(self, *a, **k):
+            r = _re.compile(*a, **k)
+            self.compiled.append(r)
+            return r
+
+        def __getattr__(self, n):
+            return getattr(_re, n)
+
+    px, old = Proxy(), io_mod.re
+    io_mod.re = px
+    try:
+        io_mod.parse_swc(io.StringIO(""), names=get_names(None), extra_cols=[f"e{i}" for i in range(nx)] or None)
+    finally:
+        io_mod.re = old
+    return px.compiled[-1]
+
+
+class GenLoop(Suite):
+    """the loop of parse_swc as GENERATED from the source (driver op `gparse`), fed the outcome of the real `re_swc.search`, `RE_COMMENT.match`,
+    `str.isspace` on every line the real file iterator yields, against the real `parse_swc` on the same text / bytes"""
+    name = "c02.genloop"
+
+    def cases(self, rng, tier, widen):
+        big = tier == "thorough" or widen
+        out = [dict(c, src="text") for c in Recogniser().cases(rng, tier, widen)]
+        if not big:
+            keep = [c for c in out if c["class"] in ("edge", "file", "file-bad")]
+            rest = [c for c in out if c["class"] not in ("edge", "file", "file-bad")]
+            out = keep + rest[:120]
+        k = 0
+        for rep in range(40 if big else 12):
+            # bytes that are not utf-8: in a small file (nothing is yielded before the decoder fails) and beyond the first 8 KiB chunk of a
+            # large one (the lines before it ARE processed first: an invalid line among them wins, a table is never returned)
+            n = rng.choice([2, 5, 9]) if rep % 3 else rng.choice([400, 700])
+            pids = gen.parents_sorted(rng, n, gen.pick_shape(rng, k)); k += 1
+            nx = rng.choice([0, 0, 1])
+            text, _, _ = make_text(rng, list(range(1, len(pids) + 1)), [-1 if p < 0 else p + 1 for p in pids], n_extra=nx, with_tail=rng.random() < 0.3)
+            ls = text.split("\n")
+            bad_line = rng.random() < 0.4
+            if bad_line:
+                ls.insert(rng.randrange(len(ls) + 1), malformed_line(rng, rng.choice(MALFORM)))
+            data = "\n".join(ls).encode("ascii")
+            kind = rng.choice(BAD_BYTES)
+            off = rng.randrange(len(data) + 1) if n < 100 and rng.random() < 0.7 else len(data) - rng.randrange(min(len(data), 200))
+            data = data[:off] + bad_bytes(rng, kind) + data[off:]
+            out.append({"class": f"bytes/{'large' if n > 100 else 'small'}{'/bad-line' if bad_line else ''}", "data": data.hex(), "nx": nx, "src": "bytes"})
+        return out
+
+    def run(self, case):
+        import re as _re
+        from io import BytesIO, StringIO, TextIOWrapper
+
+        from swcgeom.core.swc_utils import io as io_mod
+        from swcgeom.core.swc_utils.base import get_names
+
+        nx = case["nx"]
+        names = get_names(None)
+        extras = [f"e{i}" for i in range(nx)]
+        # (a) the real function
+        src = StringIO(case["text"]) if case["src"] == "text" else BytesIO(bytes.fromhex(case["data"]))
+        with warnings.catch_warnings(record=True) as w:
+            warnings.simplefilter("always")
+            try:
+                df, comments = io_mod.parse_swc(src, names=names, extra_cols=extras or None)
+                real = {"cols": [[k, df[k].tolist()] for k in df.columns], "comments": list(comments)}
+            except ValueError as e:
+                real = {"error": type(e).__name__, "msg": str(e)}
+        real["warn"] = [str(x.message) for x in w]
+        real["closed"] = bool(src.closed)
+        # (b) what the file iterator yields, and what the three tests of the real code say about every line
+        it = iter(StringIO(case["text"])) if case["src"] == "text" else iter(TextIOWrapper(BytesIO(bytes.fromhex(case["data"])), encoding="utf-8"))
+        lines, fail = [], False
+        while True:
+            try:
+                lines.append(next(it))
+            except StopIteration:
+                break
+            except UnicodeDecodeError:
+                fail = True
+                break
+        re_swc = real_re_swc(nx)
+        transforms = [int, int, float, float, float, float, int] + [float] * nx
+        header = " ".join(names.cols())
+        table, ctable, toks = [], [], []
+        for line in lines:
+            m = re_swc.search(line)
+            if m is None:
+                r = "-"
+            else:
+                ids = []
+                for j, tr in enumerate(transforms):
+                    table.append(tr(m.group(j + 1))); ids.append(len(table) - 1)
+                r = f"{int(bool(m.group(7 + nx + 1)))}:{','.join(map(str, ids))}"
+            mc = io_mod.RE_COMMENT.match(line)
+            if not mc:
+                c = "-"
+            else:
+                text = line[len(mc.group(0)):].removesuffix("\n")
+                ctable.append(text)
+                c = str(-len(ctable) if text.lstrip().startswith(header) else len(ctable))
+            toks.append(f"{r}/{c}/{int(line.isspace())}")
+        return {"real": real, "line": f"gparse cols={','.join(names.cols())} extras={','.join(extras) or '_'} open=1 fail={int(fail)} lines={';'.join(toks) or '_'}",
+                "table": [repr(v) for v in table], "ctable": ctable, "nlines": len(lines), "fail": fail}
+
+    def lines(self, case, res):
+        from harness import swctext
+
+        if "exc" in res:
+            return []
+        real, table, ctable = res["real"], res["table"], res["ctable"]
+
+        def fn(got):
+            import re as _re
+
+            if "error" in real:
+                m = _re.fullmatch(r"error (\w+) args=(-?\d*) closed=(\d) warn=([\d,]*) msg=(.*)", got)
+                if not m or m.group(1) != real["error"] or bool(int(m.group(3))) != real["closed"]:
+                    return False
+                if not real["msg"].startswith(m.group(5).split("{")[0]):
+                    return False
+                mr = _re.search(r"invalid row (\d+)", real["msg"])
+                if (m.group(2) or None) != (mr.group(1) if mr else None):
+                    return False
+                warn = m.group(4)
+            else:
+                m = _re.fullmatch(r"ok closed=(\d) warn=([\d,]*) cols=(.*) comments=([-\d,]*)", got)
+                if not m or bool(int(m.group(1))) != real["closed"]:
+                    return False
+                cols = [c.split(":") for c in m.group(3).split("|")]
+                if [c[0] for c in cols] != [k for k, _ in real["cols"]]:
+                    return False
+                for (k, toks), (_, vals) in zip(cols, real["cols"]):
+                    if [table[int(t)] for t in toks.split(",") if t] != [repr(v) for v in vals]:
+                        return False
+                if [ctable[abs(int(t)) - 1] for t in m.group(4).split(",") if t] != real["comments"]:
+                    return False
+                warn = m.group(2)
+            rows = [int(_re.search(r"in row (\d+)", x).group(1)) for x in real["warn"] if "some fields are ignored" in x]
+            return [int(t) for t in warn.split(",") if t] == rows and len(rows) == len(real["warn"])
+
+        return [(res["line"], swctext.Expect(fn, "real=" + repr(real)[:1500]))]
+
+    def oracle(self, case, res):
+        if "exc" in res:
+            return [("parse-internal-error", f"parse_swc / the line classification raised {res['exc']}: {res.get('msg')}")]
+        real = res["real"]
+        # the property itself, on the real function's I/O: a decode failure or a line that none of the three tests accepts never yields a table
+        if res["fail"] and "error" not in real:
+            return [("malformed-accepted/decode", f"the decoder failed after {res['nlines']} lines and parse_swc returned a table")]
+        return []
+
+    def nontrivial(self, case, res):
+        return res.get("nlines", 0) >= 1
+
+    def klass(self, case, res):
+        if "exc" in res:
+            return case["class"] + "/exc"
+        r = res["real"]
+        return case["class"] + "/" + ("error-" + ("decode" if "decode" in r["msg"] else "row") if "error" in r else f"ok-w{len(r['warn'])}")
+
+
+SUITES = [Read(), Recogniser(), GenLoop()]
 TECHNIQUE = "Lean 4 theorems about a line recogniser + fold model of parse_swc (ok ⇔ no invalid line; one row per data line in order; never partial) pinned to the regexes extracted from the source + differential correspondence against CPython re / read_swc + grammar-directed and malformed-stream oracle"
 LEVEL_TEXT = ("Kernel-checked for every list of lines: the model of parse_swc returns ok exactly when no line is invalid, and then exactly one row per data "
               "line in file order with the tokens' values and the comments in order; an invalid line at any position makes the whole read an error. "
